@@ -50,6 +50,10 @@
 (*                   under the guard only; getters read under t.mu.RLock   *)
 (*   "Fieldwise"     a record update is a series of separate field writes  *)
 (*                   and a read a series of separately locked getters      *)
+(*   "CloneOrder"    beacon.CloneUnorderedTreasures waits for every        *)
+(*                   treasure's guard while holding the beacon's WRITE     *)
+(*                   lock; a writer holds the guard and then takes the     *)
+(*                   beacon lock inside Save: lock-order inversion         *)
 (***************************************************************************)
 EXTENDS Integers, Sequences, FiniteSets, TLC
 
@@ -58,7 +62,7 @@ CONSTANTS Procs,      \* model processes
           PathNames,  \* the API paths to combine (subset of AllPathNames)
           Persistent  \* TRUE: records have been flushed (BodySetForDeletion / file writer steps exist)
 
-DevNames == {"MapEscape", "ColdBuild", "SetterNoLock", "Fieldwise"}
+DevNames == {"MapEscape", "ColdBuild", "SetterNoLock", "Fieldwise", "CloneOrder"}
 
 Fields == {"content", "createdAt", "createdBy", "modifiedAt", "modifiedBy", "expiration", "deleted", "key", "fileName", "flags"}
 
@@ -91,6 +95,10 @@ GG(fn, f) == A(fn, {f}, "R", {L("t", "R"), Sp("g", "W"), L("pub", "R")})
 \* a getter called from a sort comparator / index scan: it runs over EVERY record of the index, under the index lock,
 \* not under the guards of those records
 GC(fn, f, lk) == A(fn, {f}, "R", {L("t", "R"), Sp("ib", lk), L("pub", "R")})
+\* the same inside a writer's Save: the writer still holds the guard of ITS record while the comparators run.  (With a
+\* single modelled record this makes writer x writer comparator reads look protected; the unprotected comparator reads
+\* are those of the read paths, which give the same code-site pairs.)
+GCW(fn, f) == A(fn, {f}, "R", {L("t", "R"), Sp("ib", "W"), Sp("g", "W"), L("pub", "R")})
 
 Lookup == A("beacon.Get", {"keymap"}, "R", {L("bk", "R")})
 LookupG == A("beacon.Get", {"keymap"}, "R", {L("bk", "R"), Sp("g", "W")})
@@ -102,10 +110,10 @@ SetFields == << S("treasure.SetContentInt64", {"content"}), S("treasure.SetConte
 
 \* the index maintenance a Save does when the index is built: delete + add + re-sort (comparators read other records)
 IndexUpdate ==
-  << A("beacon.Delete", {"idx"}, "W", {Sp("ib", "W"), Sp("g", "W")}), GC("treasure.GetKey", "key", "W"),
+  << A("beacon.Delete", {"idx"}, "W", {Sp("ib", "W"), Sp("g", "W")}), GCW("treasure.GetKey", "key"),
      A("beacon.Add", {"idx"}, "W", {Sp("ib", "W"), Sp("g", "W")}),
-     GC("treasure.GetKey", "key", "W"), GC("treasure.GetContentInt64", "content", "W"), GC("treasure.GetCreatedAt", "createdAt", "W"),
-     GC("treasure.GetModifiedAt", "modifiedAt", "W"), GC("treasure.GetExpirationTime", "expiration", "W"),
+     GCW("treasure.GetKey", "key"), GCW("treasure.GetContentInt64", "content"), GCW("treasure.GetCreatedAt", "createdAt"),
+     GCW("treasure.GetModifiedAt", "modifiedAt"), GCW("treasure.GetExpirationTime", "expiration"),
      A("beacon.SortBy", {"idx"}, "W", {Sp("ib", "W"), Sp("g", "W")}) >>
 
 \* notifyBucketsInsert / notifyBucketsUpdate: every initialised field bucket re-reads the body of the saved treasure
@@ -132,7 +140,7 @@ DeleteSteps ==
   \o (IF Persistent THEN << S("treasure.BodySetForDeletion", {"content", "deleted", "expiration"}), A("beacon.Add", {"wbuf"}, "W", {L("wb", "W"), Sp("g", "W")}) >>
                     ELSE << A("beacon.Delete", {"wbuf"}, "W", {L("wb", "W"), Sp("g", "W")}) >>)
   \o << A("beacon.Delete", {"keymap"}, "W", {L("bk", "W"), Sp("g", "W")}),
-        A("beacon.Delete", {"idx"}, "W", {Sp("ib", "W"), Sp("g", "W")}), GC("treasure.GetKey", "key", "W"),
+        A("beacon.Delete", {"idx"}, "W", {Sp("ib", "W"), Sp("g", "W")}), GCW("treasure.GetKey", "key"),
         A("swamp.notifyBucketsDelete", {"bktreg"}, "R", {L("bsm", "R"), Sp("g", "W")}),
         A("bucket.OnDelete", {"bkt"}, "W", {L("bm", "W"), Sp("g", "W")}),
         A("beacon.Count", {"keymap"}, "R", {L("bk", "R")}) >>
@@ -178,8 +186,10 @@ Path(n) ==
     \* (a copy made under beaconKey's WRITE lock and every treasure's guard) and builds the bucket from the copy
     [] n = "bucket_cold" ->
            << A("swamp.GetOrBuildBucket", {"bktreg"}, "R", {L("bsm", "R")}), A("swamp.GetOrBuildBucket", {"bktreg"}, "W", {L("bsm", "W")}),
-              A("beacon.CloneUnorderedTreasures", {"keymap"}, "R", {Sp("bk", "W")}),
-              A("treasure.Clone", Fields \ {"flags"}, "R", {Sp("bk", "W"), Sp("g", "W"), L("pub", "R")}),
+              \* the function that walks the map is also the one that takes each treasure's guard for the clone
+              A("beacon.CloneUnorderedTreasures", {"keymap"}, "R", IF "CloneOrder" \in Dev THEN {Sp("bk", "W")} ELSE {L("bk", "R")}),
+              A("beacon.CloneUnorderedTreasures", Fields \ {"flags"}, "R",
+                (IF "CloneOrder" \in Dev THEN {Sp("bk", "W")} ELSE {}) \cup {Sp("g", "W"), L("pub", "R")}),
               A("bucket.BuildEquality", {"bkt"}, "W", {L("bm", "W")}),
               A("bucket.DrainPending", {"bkt"}, "W", {L("bm", "W")}),
               A("bucket.LookupEqual", {"bkt"}, "R", {L("bm", "R")}) >> \o Snapshot(TRUE)
@@ -284,6 +294,10 @@ Conflict(a, b) == (a.locs \cap b.locs) # {} /\ ("W" \in {a.acc, b.acc})
 RacingNow == {<<p, q>> \in Procs \X Procs : p # q /\ inn[p] /\ inn[q] /\ ~Done(p) /\ ~Done(q) /\ Conflict(Cur(p), Cur(q))}
 
 RaceFree == RacingNow = {}
+
+\* somebody can always move until everybody has finished: the locks are taken in a consistent order
+AllDone == \A p \in Procs : Done(p)
+NoDeadlock == AllDone \/ ENABLED ANext
 
 \* a reader that has finished read a <value, updated-by> pair of ONE committed version
 CommittedRead ==
